@@ -26,6 +26,7 @@ func init() {
 			"C13.R3 control dependence of sample->float64 conversions on the signed flag",
 			"C13.R4 flow-insensitive dependence slice (through memory of locals and pointer arguments of calls) of each analysis field store",
 			"C13.R5 freshness of slices stored into records",
+			"C13.R6 sample ranges: the SSA slice of each pre-trigger quantity reads the record's vector only at indices [0, presamples), that of each post-trigger quantity only at [presamples, len) (cut at the pre-trigger mean); whole-vector reads are reported",
 		},
 		Run: runC13,
 	})
@@ -37,9 +38,11 @@ func runC13(p *Prog, r *Report) {
 	r.MinInstances["C13.R3"] = 2
 	r.MinInstances["C13.R4"] = 7
 	r.MinInstances["C13.R5"] = 1
+	r.MinInstances["C13.R6"] = 5
 	c13R1(p, r)
 	c13R2(p, r)
 	c13R3R4R5(p, r)
+	c13R6(p, r)
 }
 
 // ---- R1 -----------------------------------------------------------------------------------
@@ -589,5 +592,152 @@ func c13R3R4R5(p *Prog, r *Report) {
 	}
 	if nfn == 0 {
 		r.Bad("C13.R4", "analysis function", "-", "no function stores the per-record analysis values")
+	}
+}
+
+// ---- R6: each quantity reads the samples of its own part of the record ----------------------
+
+// c13R6: the definitions split a record at its pre-trigger count: pretrigMean / pretrigDelta are
+// functions of samples [0, presamples), peakValue / pulseAverage / pulseRMS of samples
+// [presamples, len) (and of the pre-trigger mean).  For every such store the backward SSA slice
+// of the stored value (cut at the pre-trigger mean) is searched for reads of the record's
+// float vector: each must be an element read whose index is a counting-loop variable starting
+// at 0 (pre) / at the record's presamples (post); a whole-vector read (Max, Sum, Norm ...) or
+// an element read over another range is reported.
+func c13R6(p *Prog, r *Report) {
+	rec := p.NamedType("", "DataRecord")
+	if rec == nil {
+		return
+	}
+	part := map[string]string{"pretrigMean": "pre", "pretrigDelta": "pre", "peakValue": "post", "pulseAverage": "post", "pulseRMS": "post"}
+	for _, fn := range p.LibFuncs() {
+		stores := map[string]*ssa.Store{}
+		for f := range part {
+			for _, st := range StoresTo(fn, rec.Obj().Name(), f) {
+				if _, fresh := addrRoot(st.Addr).(*ssa.Alloc); !fresh {
+					stores[f] = st
+				}
+			}
+		}
+		if len(stores) == 0 {
+			continue
+		}
+		r.Fn(FuncName(fn))
+		// the float vector of the record: allocs of a VecDense passed to calls
+		isVec := func(v ssa.Value) bool {
+			if mi, ok := v.(*ssa.MakeInterface); ok {
+				v = mi.X
+			}
+			a, ok := v.(*ssa.Alloc)
+			return ok && strings.HasSuffix(derefType(a.Type()).String(), "mat.VecDense")
+		}
+		var ptm ssa.Value
+		if st := stores["pretrigMean"]; st != nil {
+			ptm = st.Val
+		}
+		isPresamples := func(v ssa.Value) bool {
+			v = stripConv(v)
+			o, f, _, ok := FieldOf(v)
+			return ok && o == rec.Obj().Name() && f == "presamples"
+		}
+		var names []string
+		for f := range stores {
+			names = append(names, f)
+		}
+		sort.Strings(names)
+		for _, f := range names {
+			st := stores[f]
+			want := part[f]
+			bad := ""
+			nread := 0
+			seen := map[ssa.Value]bool{}
+			var walk func(v ssa.Value)
+			walk = func(v ssa.Value) {
+				if v == nil || seen[v] || bad != "" {
+					return
+				}
+				seen[v] = true
+				if want == "post" && ptm != nil && v == ptm {
+					return // the pre-trigger mean enters the post-trigger quantities by definition
+				}
+				if c, ok := v.(*ssa.Call); ok {
+					usesVec := false
+					args := c.Call.Args
+					for _, a := range args {
+						if isVec(a) {
+							usesVec = true
+						}
+					}
+					if usesVec {
+						nread++
+						name := CalleeName(&c.Call)
+						if !strings.HasSuffix(name, ".AtVec") && !strings.HasSuffix(name, ".At") {
+							bad = fmt.Sprintf("whole-vector read %s at %s", shortName(name), p.InstrPos(c))
+							return
+						}
+						idx := stripConv(args[1])
+						switch want {
+						case "post":
+							ph, isPhi := idx.(*ssa.Phi)
+							okStart := false
+							if isPhi {
+								for i, e := range ph.Edges {
+									if !ph.Block().Dominates(ph.Block().Preds[i]) && isPresamples(e) {
+										okStart = true
+									}
+								}
+							}
+							if !okStart {
+								bad = fmt.Sprintf("element read at %s whose index does not start at the record's presamples", p.InstrPos(c))
+							}
+						case "pre":
+							if k, isC := constInt(idx); isC && k == 0 {
+								return
+							}
+							ph, isPhi := idx.(*ssa.Phi)
+							okRange := false
+							if isPhi {
+								start0 := false
+								for i, e := range ph.Edges {
+									if !ph.Block().Dominates(ph.Block().Preds[i]) {
+										if k, isC := constInt(e); isC && k == 0 {
+											start0 = true
+										}
+									}
+								}
+								// loop condition phi < presamples
+								for _, ref := range *ph.Referrers() {
+									if bo, ok := ref.(*ssa.BinOp); ok && bo.Op == token.LSS && bo.X == ssa.Value(ph) && isPresamples(bo.Y) && start0 {
+										okRange = true
+									}
+								}
+							}
+							if !okRange {
+								bad = fmt.Sprintf("element read at %s whose index does not run over [0, presamples)", p.InstrPos(c))
+							}
+						}
+						return
+					}
+				}
+				if in, ok := v.(ssa.Instruction); ok {
+					var ops []*ssa.Value
+					for _, o := range in.Operands(ops) {
+						if *o != nil {
+							walk(*o)
+						}
+					}
+				}
+			}
+			walk(st.Val)
+			if bad == "" && nread == 0 {
+				bad = "no read of the record's samples found in the value's computation"
+			}
+			rng := "[presamples, len)"
+			if want == "pre" {
+				rng = "[0, presamples)"
+			}
+			r.Check(bad == "", "C13.R6", FuncName(fn)+" "+f+" reads only samples "+rng, p.InstrPos(st), fmt.Sprintf("%d element reads, all over %s", nread, rng),
+				f+" is defined over samples "+rng+" of the record, but its computation contains a "+bad+": samples of the other part of the record (a spike or pile-up tail before the trigger, or the pulse itself for pre-trigger quantities) change the value")
+		}
 	}
 }
